@@ -248,6 +248,7 @@ Proof.
   - destruct (s_obj s) as [|t f|h c] eqn:Ho; [| destruct t | destruct h]; cbn [fst]; exact Hi.
   - destruct (s_obj s) as [|t f|h c] eqn:Ho; [| destruct t | destruct h]; cbn [fst]; exact Hi.
   - destruct (s_obj s) as [|t f|h c] eqn:Ho; [| destruct t | destruct h]; cbn [fst]; exact Hi.
+  - destruct (s_obj s) as [|t f|h c] eqn:Ho; [| destruct t | destruct h]; cbn [fst]; exact Hi.
 Qed.
 
 (* ------------------------------------------------------------------ every history *)
